@@ -3,6 +3,10 @@ From V Require Import Model.KeySet Model.KeyFile Proofs.KeySet Gen.ConstKeyset.
 From Coq Require Import ZifyBool.
 Ltac Zify.zify_post_hook ::= Z.div_mod_to_equations.
 
+(* nts_key_provider.rs opens the file with truncate(true) and mode(0o600) (regenerated from the source on every run) *)
+Example provider_open_options : (PROVIDER_TRUNCATE, FILE_MODE_OCTAL_DIGITS) = (1, 600).
+Proof. reflexivity. Qed.
+
 Lemma app_inj_len' {A} (a a' b b' : list A) : a ++ b = a' ++ b' -> length a = length a' -> a = a' /\ b = b'.
 Proof.
   intros H Hl. split.
